@@ -27,6 +27,9 @@ type MuxStream struct {
 	// Reopen > 0: after that many payloads the reader closes its logical connection and opens the
 	// same id again (the writer waits at that boundary); the rest must arrive on the new connection.
 	Reopen int `json:"reopen,omitempty"`
+	// StaleClose: after the re-open the stale handle of the first connection is closed once more
+	// (closing repeatedly is allowed and must not touch the new connection on the same id)
+	StaleClose bool `json:"stale_close,omitempty"`
 }
 
 type MuxShared struct {
@@ -113,6 +116,7 @@ func muxGen(focus string) func(rng *rand.Rand, conf string, idx int) any {
 					}
 					if !other && !lis {
 						st.Reopen = 1 + rng.Intn(len(st.Sizes)-1)
+						st.StaleClose = rng.Intn(2) == 0
 					}
 				}
 				w.Streams = append(w.Streams, st)
@@ -361,10 +365,15 @@ func muxRun(t *testing.T, wl any, sc SchedCfg) *Result {
 				for sd.reads < wantFrames {
 					if sd.reads == reopenAt && !reopened[k] {
 						rc.Close()
+						stale := rc
 						nc, err := muxes[1-st.Dir].Open(multiplex.ConnID(st.ID))
 						if err != nil {
 							sd.rerr = err
 							break
+						}
+						if st.StaleClose {
+							stale.Close()
+							e.S.Probe("C10.stale-handle-closed-again-after-reopen")
 						}
 						rc = nc
 						conns[1-st.Dir][st.ID] = nc
